@@ -329,6 +329,26 @@ def task_wrap(cell, p, s, ref, wname, wkind, quick):
                 g = p.get_attrs(s, r["h"], [C.CKA_DECRYPT])
                 if g.get(C.CKA_DECRYPT) is True:
                     cell.V("C13|%s|unwrap-template|template-conflicting-with-CKA_UNWRAP_TEMPLATE-won" % wname, {})
+            # every caller template of one to four entries over the restricted attributes (agreeing and conflicting values, repeated attributes in both
+            # orders, at the front and at the end): whenever the unwrap succeeds, every attribute named in CKA_UNWRAP_TEMPLATE reads the template's value
+            ents = [(C.CKA_SENSITIVE, False), (C.CKA_SENSITIVE, True), (C.CKA_DECRYPT, False), (C.CKA_DECRYPT, True)]
+            import itertools as _it
+            extras = [list(x) for n_ in (1, 2, 3, 4) for x in _it.product(ents, repeat=n_)]       # (the library demands that every restricted attribute is named)
+            for ex_ in extras:
+                for front in (False, True):
+                    T_ = (ex_ + base) if front else (base + ex_)
+                    r = p.UnwrapKey(s, ms, wt, data, T_)
+                    cell.count("cells")
+                    if r["rv"] != 0:
+                        cell.count("unwrap_template_conflict_refused")
+                        continue
+                    g = p.get_attrs(s, r["h"], [C.CKA_SENSITIVE, C.CKA_DECRYPT])
+                    p.DestroyObject(s, r["h"])
+                    if g.get(C.CKA_SENSITIVE) is not False or g.get(C.CKA_DECRYPT) is not False:
+                        cell.V("C13|%s|unwrap-template|unwrapped-key-violates-CKA_UNWRAP_TEMPLATE|%s" % (wname, "repeated-attribute" if len({e[0] for e in ex_}) < len(ex_) else "conflicting-value"),
+                               {"caller_entries": [[C.CKA_NAMES.get(t, t), v] for t, v in ex_], "front": front, "got": {C.CKA_NAMES.get(k, k): v for k, v in g.items()}})
+                    else:
+                        cell.count("unwrap_template_honoured")
 
 
 def task_derive(cell, p, s, ref, which, quick):
